@@ -67,6 +67,36 @@ def pin_environment():
         raise HarnessError(f"codelimit imported from {here}, expected under {REPO}")
 
 
+_PRE = {"done": False}
+
+
+def preimport():
+    """import (not use) everything the forked children need, once, in the parent"""
+    if _PRE["done"]:
+        return
+    _PRE["done"] = True
+    import importlib
+    import pkgutil
+
+    import codelimit
+
+    for m in pkgutil.walk_packages(codelimit.__path__, "codelimit."):
+        if m.name.endswith(("__main__", "github_auth", "commands.upload", "commands.app")):
+            continue
+        try:
+            importlib.import_module(m.name)
+        except Exception:
+            pass
+    from pygments.lexers import get_lexer_for_filename
+
+    for ext in ("c", "cpp", "cs", "java", "js", "ts", "py"):
+        get_lexer_for_filename("x." + ext)
+    try:
+        import codelimit.__main__  # noqa
+    except Exception:
+        pass
+
+
 class HarnessError(Exception):
     """The machinery itself is broken (never reported as a VIOLATION)."""
 
@@ -140,7 +170,7 @@ class Agg:
         k = sig_key(kind, sig)
         self.vcount[k] += 1
         lst = self.violations.setdefault(k, [])
-        rec = {"kind": kind, "sig": sig, "case": case, "detail": detail[:2000]}
+        rec = {"kind": kind, "sig": sig, "case": case, "detail": detail[:2000], "_block": getattr(self, "block", None)}
         size = len(json.dumps(case, default=str))
         lst.append((size, rec))
         lst.sort(key=lambda x: (x[0], json.dumps(x[1]["case"], sort_keys=True, default=str)))
@@ -170,6 +200,7 @@ class Agg:
 def _worker(args):
     fn, block = args
     agg = Agg()
+    agg.block = block
     try:
         fn(block, agg)
     except Timeout:
@@ -200,12 +231,14 @@ class Ctx:
     def pick(self, quick, thorough):
         return quick if self.tier == "quick" else thorough
 
-    def run_blocks(self, fn, blocks, parallel=True, fresh=False):
+    def run_blocks(self, fn, blocks, parallel=True, fresh=True):
         """fn(block, agg) explores one block on the real code. Blocks are sharded over
         forked workers (fork once per worker, never per execution)."""
         blocks = list(blocks)
         if not blocks:
             return
+        self.block_fn = fn
+        preimport()
         # rotate shard assignment by seed: coverage identical, scheduling differs
         r = self.seed % len(blocks)
         blocks = blocks[r:] + blocks[:r]
@@ -309,6 +342,59 @@ def validate_evidence(path: Path):
         return
 
 
+def _in_child(fn, arg):
+    import pickle
+    import tempfile
+
+    fd, path = tempfile.mkstemp(prefix="mc-replay-")
+    os.close(fd)
+    pid = os.fork()
+    if pid == 0:
+        try:
+            try:
+                res = fn(arg)
+            except Exception:
+                res = [{"kind": "replay-crash", "sig": {}, "detail": traceback.format_exc()[-800:]}]
+            with open(path, "wb") as f:
+                pickle.dump(res, f)
+        finally:
+            os._exit(0)
+    os.waitpid(pid, 0)
+    try:
+        with open(path, "rb") as f:
+            return pickle.load(f)
+    except Exception:
+        return [{"kind": "replay-crash", "sig": {}, "detail": "replay child died"}]
+    finally:
+        os.unlink(path)
+
+
+def _replay_block(fn, block, key):
+    """re-run one block in a forked child of this (clean) process; returns the violations of class `key` it reports"""
+    import pickle
+    import tempfile
+
+    fd, path = tempfile.mkstemp(prefix="mc-replay-")
+    os.close(fd)
+    pid = os.fork()
+    if pid == 0:
+        try:
+            agg = _worker((fn, block))
+            with open(path, "wb") as f:
+                pickle.dump(agg, f)
+        finally:
+            os._exit(0)
+    os.waitpid(pid, 0)
+    try:
+        with open(path, "rb") as f:
+            agg = pickle.load(f)
+    except Exception:
+        return []
+    finally:
+        os.unlink(path)
+    return [r for _, r in agg.violations.get(key, [])]
+
+
 def finish(ctx: Ctx, mod, replay_fn=None) -> int:
     agg = ctx.agg
     harness_errors = sorted(n for n in agg.notes if n.startswith("HARNESS-ERROR"))
@@ -326,10 +412,16 @@ def finish(ctx: Ctx, mod, replay_fn=None) -> int:
         rec = recs[0]
         # re-execute from the recorded case before believing it
         if replay_fn is not None:
-            try:
-                again = replay_fn(rec["case"])
-            except Exception:
-                again = [{"kind": "replay-crash", "sig": {}, "detail": traceback.format_exc()[-800:]}]
+            # every replay runs in a child forked from this process, which itself never executes codelimit code: no replay
+            # can leave state behind for the next one
+            again = _in_child(replay_fn, rec["case"])
+            if not again and rec.get("_block") is not None and getattr(ctx, "block_fn", None) is not None:
+                # not reproducible on its own: does it reproduce when the whole block it came from is replayed in a fresh
+                # process (a failure that depends on what was analysed earlier in the same process)?
+                again = _replay_block(ctx.block_fn, rec["_block"], k)
+                if again:
+                    rec = dict(rec, detail=rec.get("detail", "") + "\n[history-dependent: reproduces only when the cases explored before it in the same "
+                               "process are replayed first; block = " + repr(rec["_block"])[:300] + "]")
             if not again:
                 flaky.append((k, rec, again))
                 continue
@@ -348,6 +440,7 @@ def finish(ctx: Ctx, mod, replay_fn=None) -> int:
         replay_dir.mkdir(parents=True, exist_ok=True)
         h = hashlib.sha1(k.encode()).hexdigest()[:12]
         p = replay_dir / f"{h}.json"
+        rec = {kk: vv for kk, vv in rec.items() if kk != "_block"}
         p.write_text(json.dumps({"property": ctx.prop, "count_in_run": agg.vcount[k], **rec},
                                 indent=1, ensure_ascii=False, default=str))
         unknown_lines.append((p, rec, agg.vcount[k]))
